@@ -17,7 +17,7 @@ RULE = ('case = (metric, configuration, one batch of rows) drawn per registry en
         'oracle = vlib/oracles/metrics_ref.py (plain-Python textbook definitions, math.fsum) with rtol=atol=1e-9; '
         'non-trivial = both classes present / a zero denominator / k straddling a prediction length / a NaN entry / >= 2 '
         'distinct values; distinct = distinct canonical case JSON'
-        '; also: batches of 127..512 rows (a pattern repeated) in every scenario, text/statistics accumulators fed batch by batch')
+        '; also: data shifted by 2**24 for the mean / variance family (tolerance 1e-5 on shifted data), batches of 127..512 rows (a pattern repeated) in every scenario, text/statistics accumulators fed batch by batch')
 ASSUMPTIONS = [
     'zero denominator -> 0 (safe_divide) and NaN skipping (nanmean/nanvar) are the documented conventions',
     'retrieval rows have >= 1 true label, >= 1 prediction, no duplicate ids within a row; k_list sorted unique, entries >= 1',
